@@ -1,4 +1,111 @@
-//! native validation of the oracles of this family against the repository's vectors
+//! native validation of the oracles of this family (serpent, twofish, cast6) against the repository's vectors
+//! and the specifications' own test vectors
 #![allow(unused)]
 use crate::T;
-pub fn run(repo: &str, t: &mut T) {}
+use refmodels::{cast6 as c6, serpent as sp, twofish as tf};
+
+fn blk(b: &[u8]) -> [u8; 16] {
+    b.try_into().unwrap()
+}
+fn unhex(s: &str) -> Vec<u8> {
+    (0..s.len() / 2).map(|i| u8::from_str_radix(&s[2 * i..2 * i + 2], 16).unwrap()).collect()
+}
+
+pub fn run(repo: &str, t: &mut T) {
+    // ---- Serpent: every .blb of serpent/tests/data (NESSIE vectors; key length taken from the vector)
+    for f in ["serpent128", "serpent192", "serpent256"] {
+        t.kat(repo, &format!("serpent/tests/data/{f}.blb"), f, &|k, p| sp::encrypt(k, &blk(p)).to_vec(), &|k, c| sp::decrypt(k, &blk(c)).to_vec());
+    }
+    // short keys == the padded 256-bit key (append bit 1, then zeros), for every byte length 16..=31
+    let mut ok = true;
+    for len in 16..32usize {
+        let key: Vec<u8> = (0..len).map(|i| (i * 37 + 11) as u8).collect();
+        let mut full = [0u8; 32];
+        full[..len].copy_from_slice(&key);
+        full[len] = 1;
+        let p = [0x5au8; 16];
+        ok &= sp::encrypt(&key, &p) == sp::encrypt(&full, &p);
+        ok &= sp::decrypt(&key, &sp::encrypt(&key, &p)) == p;
+    }
+    t.check("serpent short-key padding", ok);
+    // inverse S-box tables really invert; every S-box is a permutation
+    let mut ok = true;
+    for i in 0..8 {
+        let inv = sp::sbox_inv_table(i);
+        for x in 0..16 {
+            ok &= inv[sp::SBOX[i][x] as usize] as usize == x;
+        }
+        let w = [0x0123_4567u32, 0x89ab_cdef, 0xdead_beef, 0x0bad_f00d];
+        ok &= sp::apply_s_inv(i, sp::apply_s(i, w)) == w;
+        ok &= sp::lt_inv(sp::lt(w)) == w;
+    }
+    t.check("serpent sbox/lt inverses", ok);
+
+    // ---- Twofish (no .blb in the crate): vectors of the paper / ECB_IVAL.TXT, ECB_TBL.TXT
+    let z = [0u8; 16];
+    t.check("twofish paper 128", tf::encrypt(&[0u8; 16], &z).to_vec() == unhex("9F589F5CF6122C32B6BFEC2F2AE8C35A"));
+    let k192 = unhex("0123456789ABCDEFFEDCBA98765432100011223344556677");
+    t.check("twofish paper 192", tf::encrypt(&k192, &z).to_vec() == unhex("CFD1D2E5A9BE9CDF501F13B892BD2248"));
+    let k256 = unhex("0123456789ABCDEFFEDCBA987654321000112233445566778899AABBCCDDEEFF");
+    t.check("twofish paper 256", tf::encrypt(&k256, &z).to_vec() == unhex("37527BE0052334B89F0CFCCAE87CFA20"));
+    // expanded key of the paper's 128-bit example (all-zero key) and S-box keys of the 192/256-bit examples
+    let k = tf::key_schedule_with(&[0u8; 16], 2, tf::h_key);
+    t.check(
+        "twofish paper subkeys",
+        k[..8] == [0x52C54DDE, 0x11F0626D, 0x7CAC9D4A, 0x4D1B4AAA, 0xB7B83A10, 0x1E7D0BEB, 0xEE9C341F, 0xCFE14BE4] && k[38] == 0xF298311E && k[39] == 0x696EA672,
+    );
+    let s = tf::sbox_key(&k256, 4);
+    t.check("twofish paper S-box key", s == [0xB89FF6F2, 0xB255BC4B, 0x45661061, 0x8E4447F7]);
+    let k = tf::key_schedule_with(&k256, 4, tf::h_key);
+    t.check("twofish paper subkeys 256", k[0] == 0x5EC769BF && k[1] == 0x44D13C60 && k[39] == 0xF0D54DCD);
+    // ECB_TBL.TXT iteration (the chain also used by the repository's tests): entries I=1..5 and I=48
+    for (klen, exp) in [
+        (16usize, ["9F589F5CF6122C32B6BFEC2F2AE8C35A", "D491DB16E7B1C39E86CB086B789F5419", "019F9809DE1711858FAAC3A3BA20FBC3", "6363977DE839486297E661C6C9D668EB", "816D5BD0FAE35342BF2A7412C246F752", "6B459286F3FFD28D49F15B1581B08E42"]),
+        (24, ["EFA71F788965BD4453F860178FC19101", "88B2B2706B105E36B446BB6D731A1E88", "39DA69D6BA4997D585B6DC073CA341B2", "182B02D81497EA45F9DAACDC29193A65", "7AFF7A70CA2FF28AC31DD8AE5DAAAB63", "F0AB73301125FA21EF70BE5385FB76B6"]),
+        (32, ["57FF739D4DC92C1BD7FC01700CC8216F", "D43BB7556EA32E46F2A282B7D45B4E0D", "90AFE91BB288544F2C32DC239B2635E6", "6CB4561C40BF0A9705931CB6D408E7FA", "3059D6D61753B958D92F4781C8640E58", "431058F4DBC7F734DA4F02F04CC4F459"]),
+    ] {
+        let mut key = vec![0u8; klen];
+        let mut plain = [0u8; 16];
+        let mut ok = true;
+        for i in 1..50 {
+            let ct = tf::encrypt(&key, &plain);
+            ok &= tf::decrypt(&key, &ct) == plain;
+            let want = match i {
+                1..=5 => Some(exp[i - 1]),
+                48 => Some(exp[5]),
+                _ => None,
+            };
+            if let Some(w) = want {
+                ok &= ct.to_vec() == unhex(w);
+            }
+            let old: Vec<u8> = key[..16].to_vec();
+            key[16..].copy_from_slice(&old[..klen - 16]);
+            key[..16].copy_from_slice(&plain);
+            plain = ct;
+        }
+        t.check(&format!("twofish ECB_TBL chain {}", klen * 8), ok);
+    }
+
+    // ---- CAST-256 (no .blb in the crate): RFC 2612 appendix A
+    for (key, ct) in [
+        ("2342bb9efa38542c0af75647f29f615d", "c842a08972b43d20836c91d1b7530f6b"),
+        ("2342bb9efa38542cbed0ac83940ac298bac77a7717942863", "1b386c0210dcadcbdd0e41aa08a7a7e8"),
+        ("2342bb9efa38542cbed0ac83940ac2988d7c47ce264908461cc1b5137ae6b604", "4f6a2038286897b9c9870136553317fa"),
+    ] {
+        let k = unhex(key);
+        let e = c6::encrypt(&k, &z);
+        t.check(&format!("cast6 RFC 2612 A {}", k.len() * 8), e.to_vec() == unhex(ct) && c6::decrypt(&k, &e) == z);
+    }
+    // 160/224-bit keys are the zero-padded 256-bit keys; Tm/Tr first/last values
+    let mut ok = true;
+    for len in [16usize, 20, 24, 28] {
+        let key: Vec<u8> = (0..len).map(|i| (i * 29 + 3) as u8).collect();
+        let mut full = [0u8; 32];
+        full[..len].copy_from_slice(&key);
+        let p = [0xa7u8; 16];
+        ok &= c6::encrypt(&key, &p) == c6::encrypt(&full, &p) && c6::decrypt(&key, &c6::encrypt(&key, &p)) == p;
+    }
+    let (tm, tr) = c6::tm_tr();
+    ok &= tm[0][0] == 0x5a827999 && tm[0][1] == 0xc95c653a && tr[0][0] == 19 && tr[0][1] == 4 && tr[23][7] == 2;
+    t.check("cast6 zero padding, Tm/Tr", ok);
+}
